@@ -95,9 +95,34 @@ func argsFor(op string, k int) spec.Args {
 	return a
 }
 
+// argsVar: baseline arguments with the first plain integer argument varied by k, so that two calls of
+// one operation put different requests on the wire.
+func argsVar(op string, k int) spec.Args {
+	a := argsFor(op, k)
+	switch op {
+	case "GetCardByID", "GetEvent", "PutCard":
+		return a
+	}
+	for _, f := range spec.OpByName(op).Req {
+		switch f.Enc {
+		case spec.U32:
+			a[f.Name] = a[f.Name].(uint32) + uint32(k)
+			return a
+		case spec.U8:
+			if v := a[f.Name].(uint8); v > 1 { // doors stay within 1..4
+				a[f.Name] = v - uint8(k)
+			} else {
+				a[f.Name] = v + uint8(k)
+			}
+			return a
+		}
+	}
+	return a
+}
+
 func raceKey(r string) string {
 	// "write/read replies@UT0311.go:73 written at UT0311.go:86 <-> replies@UT0311.go:73 read at UT0311.go:96"
-	m := regexp.MustCompile(`(\w+)@([\w.]+\.go)`).FindStringSubmatch(r)
+	m := regexp.MustCompile(`(\w+)@([\w.\-]+\.go)`).FindStringSubmatch(r)
 	if m == nil {
 		return "race/unknown"
 	}
@@ -457,6 +482,31 @@ func main() {
 			}
 		}
 	}
+	// every operation concurrently with itself (package-level state anywhere in the library - codec,
+	// value types, message tables - is shared by two calls of the same operation) and with PutCard
+	for i := range spec.Ops {
+		op := &spec.Ops[i]
+		if op.Broadcast {
+			continue
+		}
+		for _, bind := range []uint16{0, 60001} {
+			for _, other := range []string{op.Name, "PutCard"} {
+				if other == "PutCard" && (op.Name == "PutCard" || bind != 0 && r.Quick()) {
+					continue
+				}
+				for _, p := range paths {
+					if p != "udp" && r.Quick() {
+						continue
+					}
+					calls := []call{
+						{op: op.Name, args: argsVar(op.Name, 0), ctrl: 0, path: p, delay: 0, client: 0},
+						{op: other, args: argsVar(other, 1), ctrl: 1, path: p, delay: 0, client: 0},
+					}
+					scenarios = append(scenarios, callScenario(fmt.Sprintf("allops/bind=%d/%s+%s/%s", bind, op.Name, other, p), bind, calls, 1, false))
+				}
+			}
+		}
+	}
 	// discovery while replies are still arriving, alongside a directed call
 	for _, bind := range []uint16{0, 60001} {
 		for _, p := range paths {
@@ -477,8 +527,8 @@ func main() {
 	if r.Worker == "" && r.Replay == "" {
 		racePass(r)
 	}
-	r.Rule("2 (thorough also 3) harness threads x {bind port 0, fixed} x {one shared client, two clients (also: same fixed port on the wildcard and on a specific local address)} x {same, different controller} x paths {udp,tcp,broadcast}^2 x reply delays {0,0.4T,0.8T}^2 x start offset {0,0.3T} x 3 operation pairs; discovery alongside a directed call; Listen with two events and the stop signal at 5 offsets; two threads x two sequential calls; for each scenario ALL interleavings with <= 2 preemptions (thorough: the two-call scenarios under ALL interleavings without bound, three-call families with <= 2 preemptions). distinct = distinct per-call outcome labels observed")
-	r.Assume("sequentially consistent memory; scheduling points at mutex, channel, socket and sleep operations; unsynchronised accesses to locals shared with goroutine closures are caught by the vector-clock detector, everything else only by the free-running -race pass")
+	r.Rule("2 (thorough also 3) harness threads x {bind port 0, fixed} x {one shared client, two clients (also: same fixed port on the wildcard and on a specific local address)} x {same, different controller} x paths {udp,tcp,broadcast}^2 x reply delays {0,0.4T,0.8T}^2 x start offset {0,0.3T} x 3 operation pairs; every one of the 31 directed operations concurrently with itself and with PutCard (<= 1 preemption; quick: connected-UDP path only); discovery alongside a directed call; Listen with two events and the stop signal at 5 offsets; two threads x two sequential calls; for each scenario ALL interleavings with <= 2 preemptions (thorough: the two-call scenarios under ALL interleavings without bound, three-call families with <= 2 preemptions). distinct = distinct per-call outcome labels observed")
+	r.Assume("sequentially consistent memory; scheduling points at mutex, channel, socket and sleep operations; unsynchronised accesses to locals shared with goroutine closures and to package-level variables of every package of the module (uhppote, types, messages, encoding/*) are caught by the vector-clock detector; struct fields and heap objects reached through pointers only by the free-running -race pass")
 	r.Assume("the simulated network orders consecutive operations on one socket (fd mutex atomics), as the real net package does")
 	r.Finish()
 }
